@@ -46,7 +46,11 @@ func residueProbes(r *h.Rand) []*prog {
 	p12.globals.Add(bind("apiLetGlobal", vJFunc("apiLetGlobal")))
 	// the debugging built-in: what it prints is a function of this execution's variables and context only
 	p13 := mk(`P13[{{ dump("li", "m") }}|{{ dump() }}]`, vInt(7))
-	ps = append(ps, p11, p12, p13)
+	// Go functions with pointer parameters, fed with literals and variables declared from literals: whatever the
+	// engine does with such a call, it does the same on every execution (the literals belong to the parsed template)
+	p14 := mk(`P14[{{ n := 0 }}{{try}}{{ bumpf(n) }}{{catch}}c{{end}}{{n}}|{{try}}{{ bumps("hey") }}{{catch}}c{{end}}|{{ w := "hey" }}{{try}}{{ bumps(w) }}{{catch}}c{{end}}{{w}}|{{block pb14(q=1)}}{{try}}{{ bumpf(q) }}{{catch}}c{{end}}{{q}}{{end}}{{try}}{{ bumpf(2) }}{{catch}}c{{end}}]`, vNil())
+	p14.globals.Add(bind("bumpf", vFunc("bumpf"))).Add(bind("bumps", vFunc("bumps")))
+	ps = append(ps, p11, p12, p13, p14)
 	for _, p := range ps {
 		p.files["/inc.jet"] = `I{{.}}{{isset(x)}}`
 	}
